@@ -36,6 +36,10 @@ class ThreadRunner(BaseRunner):
     def _monitor_payload(self, payload):
         try:
             result = payload()
+        except StopIteration as e:
+            # StopIteration cannot be raised into a Future (compare PEP 479)
+            failure = RuntimeError("payload %r raised StopIteration" % payload)
+            failure.__cause__ = e
         except BaseException as e:  # noqa: B036
             failure = e
         else:
